@@ -364,12 +364,12 @@ package shard
 //@   callee (common.Storage).Open
 //@   requires [read_only_exactly_for_the_read_only_modes] a0 == (m & mode.ReadOnly != 0)
 
-// ---- C14 / C43 (start-up): the mode a shard is configured with (WithMode; the node passes the
+// ---- C14 (start-up; C43's statement is touched too): the mode a shard is configured with (WithMode; the node passes the
 // mode of its configuration) holds from the moment the shard is opened - its components are
 // opened read-only exactly when that mode has the read-only bit, so that no background job of a
 // component (the write-cache's flush loop above all) changes anything while the shard reports a
 // read-only mode.
 //@ callrule c14_components_opened_in_the_configured_mode in (*Shard).Open
-//@   property C14 C43
+//@   property C14
 //@   callee (common.Storage).Open, (*metabase.DB).Open, (writecache.Cache).Open
 //@   requires [read_only_exactly_when_the_configured_mode_is] a0 == (s.info.Mode & mode.ReadOnly != 0)
